@@ -340,4 +340,34 @@ def delete_survives(repo: Repo) -> RuleRun:
 
 delete_survives.rule_id = "C19.DELETE-SURVIVES"
 
-RULES = [grid_roles, slice_roles, partition, merged_roles, assemble_walk, backport_local, delete_survives]
+def tier_order(repo: Repo) -> RuleRun:
+    """Within one tier of a sketch's grid (core ring, shell ring, wrapping ring) the faces are listed in angular order: each face
+    shares an edge with the next one. That is what makes grid[tier][i] an address in space - operation i of the shell is the
+    i-th sector - and it is independent of any geometry: it is read off the literal quad map."""
+    r = RuleRun(PROP, "C19.TIER-ORDER", floor=8, what="in every grid tier of every sketch with a literal quad map, consecutive faces share an edge (faces are listed in angular order)")
+    for cls in sketches.sketch_classes_with_quad_map(repo):
+        qm = sketches.literal_quad_map(repo, cls)
+        faces = [Sym(f"f{i}") for i in range(len(qm))]
+        grid = sketches.eval_grid(repo, cls, faces)
+
+        def edges(q):
+            return {frozenset((q[i], q[(i + 1) % 4])) for i in range(4)}
+
+        for t, tier in enumerate(grid):
+            idx = [int(repr(f)[1:]) for f in tier]
+            broken = [(idx[i], idx[i + 1]) for i in range(len(idx) - 1) if not (edges(qm[idx[i]]) & edges(qm[idx[i + 1]]))]
+            r.check(
+                not broken,
+                cls,
+                f"tier {t}: {len(idx)} faces, each adjacent to the next",
+                f"{cls.name}: in grid tier {t} the faces {broken[0] if broken else ''} follow each other but share no edge (quads {qm[broken[0][0]] if broken else ''} and {qm[broken[0][1]] if broken else ''}): "
+                f"the tier is not listed in angular order, so {cls.name}.grid[{t}][i] (and shell[i] / the operations of every shape lofted from it) does not address the i-th sector",
+                cls.methods.get("__init__").node if cls.methods.get("__init__") else cls.node,
+                key=f"tier:{t}",
+            )
+    return r
+
+
+tier_order.rule_id = "C19.TIER-ORDER"
+
+RULES = [grid_roles, slice_roles, partition, merged_roles, assemble_walk, backport_local, delete_survives, tier_order]
